@@ -24,6 +24,7 @@ type c14Sc struct {
 	AlignAt  []int `json:"align_at,omitempty"`
 	AlignSeg int   `json:"align_seg,omitempty"`
 	ViaFS    bool  `json:"via_fs,omitempty"` // templates come from a FileSystemLoader on the simulated disk instead of RegisterString
+	ViaComp  bool  `json:"via_compiled,omitempty"` // templates are compiled and serialised on one engine and reach the rendering engine as bytes
 }
 
 type propC14 struct{}
@@ -75,6 +76,7 @@ func (propC14) Gen(seed uint64, ex map[string]bool) interface{} {
 		}
 	}
 	sc := &c14Sc{Prog: p, ViaFS: r.P(25)}
+	sc.ViaComp = !sc.ViaFS && r.P(20)
 	inf := 1 << 30
 	vec := func(m map[string]int) { sc.Knobs = append(sc.Knobs, m) }
 	vec(map[string]int{}) // shipped
@@ -115,7 +117,8 @@ func (propC14) Gen(seed uint64, ex map[string]bool) interface{} {
 	return sc
 }
 
-var c14ViaFS bool // set per run from the scenario (single task, no concurrency)
+var c14ViaFS bool   // set per run from the scenario (single task, no concurrency)
+var c14ViaComp bool // likewise
 
 func c14Render(p *Program, knobs map[string]int, mainSrc string) (Obs, *simrt.World) {
 	w := simrt.Begin(simrt.Config{Seed: 14, PoolPolicy: simrt.PoolLIFO, MapOrder: simrt.OrderSorted, ClockStart: 1_700_000_000e9, ClockStep: 1e6, Knobs: knobs})
@@ -150,6 +153,25 @@ func c14Render(p *Program, knobs map[string]int, mainSrc string) (Obs, *simrt.Wo
 		src := t.Src()
 		if t.Name == p.Main && mainSrc != "" {
 			src = mainSrc
+		}
+		if c14ViaComp {
+			// the stored form of a template is one more reader of its source: compile and serialise on a
+			// scratch engine, hand the bytes to the rendering engine
+			e0 := twig.New()
+			err := e0.RegisterString(t.Name, src)
+			if err == nil {
+				var ct *twig.CompiledTemplate
+				if ct, err = e0.CompileTemplate(t.Name); err == nil {
+					var data []byte
+					if data, err = twig.SerializeCompiledTemplate(ct); err == nil {
+						err = e.LoadFromCompiledData(data)
+					}
+				}
+			}
+			if err != nil && t.Name == p.Main {
+				regErr = err.Error()
+			}
+			continue
 		}
 		if err := e.RegisterString(t.Name, src); err != nil && t.Name == p.Main {
 			regErr = err.Error()
@@ -201,8 +223,8 @@ func c14RenderTo(p *Program, flavour string) (Obs, *simrt.World) {
 
 func (propC14) Run(scI interface{}) *Outcome {
 	sc := scI.(*c14Sc)
-	c14ViaFS = sc.ViaFS
-	defer func() { c14ViaFS = false }()
+	c14ViaFS, c14ViaComp = sc.ViaFS, sc.ViaComp
+	defer func() { c14ViaFS, c14ViaComp = false, false }()
 	o := &Outcome{Probes: map[string]int64{}}
 	fp := uint64(0xcbf29ce484222325)
 	var base Obs
